@@ -228,3 +228,78 @@ def docval_config(table, k, base=None, flip=False):
                 s["disable"] = False
             rules[rid] = s
     return {"rule": rules}, set(rules)
+
+
+# ------------------------------------------------------------------------------------------------- example configurations of the docs
+def doc_example_configs(repo=REPO):
+    """every YAML / JSON example configuration the documentation shows (code blocks of docs/*.rst that contain a `rule:` section),
+    as (name, dict, [rule ids it configures]); placeholders such as <rule_id> are skipped"""
+    import re
+
+    import yaml
+
+    out = []
+    seen = set()
+    for path in sorted(glob.glob(os.path.join(repo, "docs", "*.rst"))):
+        text = open(path, encoding="utf-8").read()
+        for m in re.finditer(r"^\.\. code-block:: (yaml|json)\s*\n((?:\n|[ \t]+.*\n)+)", text, re.M):
+            body = m.group(2)
+            lines = [l for l in body.split("\n")]
+            ind = min((len(l) - len(l.lstrip()) for l in lines if l.strip()), default=0)
+            src = "\n".join(l[ind:] for l in lines)
+            if "rule" not in src or "<" in src:
+                continue
+            try:
+                d = yaml.safe_load(src) if m.group(1) == "yaml" else json.loads(src)
+            except Exception:
+                continue
+            if not isinstance(d, dict) or not isinstance(d.get("rule"), dict):
+                continue
+            rule = dict((k, v) for k, v in d["rule"].items() if isinstance(v, dict))
+            if not rule:
+                continue
+            key = json.dumps(rule, sort_keys=True, default=str)
+            if key in seen:
+                continue
+            seen.add(key)
+            rids = sorted(k for k in rule if re.match(r"^[a-z_]+_[0-9]{3}$", k))
+            cfg = {"rule": rule}
+            for extra in ("indent",):
+                if isinstance(d.get(extra), dict):
+                    cfg[extra] = d[extra]
+            out.append(("doc:%s#%d" % (os.path.basename(path)[:-4], len(out) + 1), cfg, rids))
+    return out
+
+
+def doc_example_bundles(repo=REPO):
+    """the documentation's example configurations merged into as few whole configurations as possible: an example joins the first
+    bundle that does not yet configure any of its keys (rule ids, global, group names); placeholders and examples that need a
+    user-defined severity are left out.  -> [(config dict, [rule ids])]"""
+    bundles = []
+    for name, cfg, rids in doc_example_configs(repo):
+        flat = json.dumps(cfg)
+        if "attributeName" in flat or "ruleId_" in flat or '"severity"' in flat or "group_name" in flat:
+            continue
+        keys = set()
+        for k, v in cfg["rule"].items():
+            if k == "group":
+                keys |= set("group:" + g for g in v)
+            else:
+                keys.add(k)
+        for b in bundles:
+            if not (b["keys"] & keys) and not ("indent" in cfg and "indent" in b["cfg"]):
+                break
+        else:
+            b = {"keys": set(), "cfg": {"rule": {}}, "rids": [], "names": []}
+            bundles.append(b)
+        b["keys"] |= keys
+        for k, v in cfg["rule"].items():
+            if k == "group":
+                b["cfg"]["rule"].setdefault("group", {}).update(v)
+            else:
+                b["cfg"]["rule"][k] = v
+        if "indent" in cfg:
+            b["cfg"]["indent"] = cfg["indent"]
+        b["rids"] += rids
+        b["names"].append(name)
+    return [(b["cfg"], sorted(set(b["rids"])), b["names"]) for b in bundles]
